@@ -49,22 +49,6 @@ def predicted_streams(hists, total):
     return [res.get(f"h{i}") for i in range(len(hists))]
 
 
-def top_children(sk):
-    """`F[a,b[c],d]` -> ['a', 'b[c]', 'd']"""
-    if not sk.startswith("F[") or not sk.endswith("]"):
-        return []
-    out, depth, cur = [], 0, ""
-    for ch in sk[2:-1]:
-        if ch == "," and depth == 0:
-            out.append(cur)
-            cur = ""
-            continue
-        depth += ch == "["
-        depth -= ch == "]"
-        cur += ch
-    return out + ([cur] if cur else [])
-
-
 def expected(versions, total):
     """per sample, per observed channel: (expected word or None when the observed instance is not judged, vid, why)"""
     # life of every voice instance: birth time, kind, const per sample; life of every post cell (slot): birth, delay, owners
@@ -126,7 +110,9 @@ def main(ctx, args):
         "a third of the voices feed a post-processing cell owned by dsp (`delay(8, voice(c), d)` or `mem(voice(c))`: a sibling site after the voice's own state); "
         "edits: insert / delete / replace (different shape; for a voice inside a post cell mostly only the voice, the cell stays and must keep its content) / nest deeper / change constant / inject a syntax error, at random swap times",
         "oracle per observed channel: the reference semantics (drv_prog) of that voice alone, fed the constants it saw since it was created (through a post cell: what went into the cell d samples earlier, whichever voice fed it then, zero before the cell existed); "
-        "voices that were nested deeper are not judged (a different site); when an untouched voice is not carried the Lean model of the pinned diff decides F5 vs new violation",
+        "voices that were nested deeper are not judged (a different site)",
+        "judge: (1) the runtime's samples must equal, sample by sample, the stream PREDICTED for the whole history by `Model/LiveCoding.lean: session` (reference semantics + published layouts + model of the pinned migration; drv_c07 mode `session`): any difference is a violation; "
+        "(2) where the predicted stream itself departs from the per-voice oracle the history is finding F5 (the pinned diff, exactly as modelled and as the runtime just confirmed, does not carry an untouched voice or hands old words to a fresh one)",
         "WASM payloads are built as in C06 (CLI code replicated in the harness, with the new and the previous skeleton)",
     ]
     known = load_known("C07")
@@ -135,7 +121,7 @@ def main(ctx, args):
     proved = prove(ctx, MODULES, drivers=["drv_prog", "drv_c07"])
     if proved and ctx.tier == "thorough":
         proved = leancheck(ctx, MODULES)
-    if not build_harness(ctx, bins=["c06", "c05"]):
+    if not build_harness(ctx, bins=["c06"]):
         ctx.finish()
     total = 40 if ctx.tier == "quick" else 96
     nhist = 120 if ctx.tier == "quick" else 3000
@@ -232,7 +218,7 @@ def main(ctx, args):
     ctx.coverage.update({
         "evaluations": stats["evaluations"],
         "distinct_nontrivial": len(nontriv),
-        "rule": "random edit histories (1-6 edits at random times over %d samples) x both runtimes; every observed channel of every sample compared with the reference semantics of the observed voice instance; non-trivial = at least one edit" % total,
+        "rule": "random edit histories (1-6 edits at random times over %d samples) x both runtimes; every sample of the runtime compared with the predicted session stream (Lean `session`), and the predicted stream with the reference semantics of every observed voice instance; non-trivial = at least one edit" % total,
         "samples": samples or [{"note": "replay mode"}],
         "traces_validated_against_impl": stats["evaluations"],
         "failures": len(failures),
